@@ -47,6 +47,7 @@ CHECKS = {
         "assumptions": ["delegate executor, callable outcomes, policy answers and the clock are environment"],
     },
     "C13": {
+        "extra_props": ["Props/MapFut_D.v"],
         "modules": ["p_c13"],
         "gen_lemmas": [],
         "rule": "seeded scenarios: 1-3 MapFuture/FlatMapFuture objects built directly over 2-5 environment futures (shared delegates "
@@ -163,7 +164,7 @@ CHECKS = {
         "assumptions": ["PARTIAL: GC/finalisation timing is CPython's; the worker-loop protocol is proved on Model/Refs.v"],
     },
     "C02": {
-        "extra_props": ["Props/Comb_F.v"],
+        "extra_props": ["Props/Comb_F.v", "Props/MapFut_D.v"],
         "modules": ["p_c02m", "p_c02c", "p_c02p"],
         "rule": "p_c02p: the C08 scenario family on PollExecutor plus 1-3 user done-callbacks per poll future (monitor only); library futures: the C13 scenario family (MapFuture/FlatMapFuture over environment futures; done-callbacks that may raise, "
                 "added before/after completion; 0-2 cancels) plus 0-3 threads blocked in result()/exception()/wait()/as_completed() with a "
